@@ -28,7 +28,13 @@ Inductive c05case :=
   (* the concrete semver model against the crate: does each string parse, and
      how do the two versions compare (0 Lt, 1 Eq, 2 Gt), under Ord and under
      precedence *)
-| CSemver (a b : str) (pa pb : bool) (ord prec : option N).
+| CSemver (a b : str) (pa pb : bool) (ord prec : option N)
+  (* three registrations on one method and path: r0 and r1 accepted, then r2
+     (None: the first two were not both accepted — the generator only emits
+     disjoint pairs, so that is a disagreement) *)
+| CTriple (r0 r1 r2 : vrange N) (prec : list N) (third_refused : option bool)
+  (* the header policy through a live server *)
+| CHeaderLive (h : hdr) (max : str) (status : N) (entered : bool) (hyper_refuses : bool).
 
 Definition cmp_code (c : comparison) : N := match c with Lt => 0 | Eq => 1 | Gt => 2 end.
 
@@ -134,6 +140,38 @@ Definition judge (c : c05case) : N :=
                              else V_VIOLATION
           | Ok _, Err _ => V_VIOLATION   (* a handler would run for a version the policy must refuse *)
           | Err _, Ok _ => V_VIOLATION   (* a version the policy must accept is refused *)
+          end
+      end
+  | CTriple r0 r1 r2 prec third =>
+      if negb (range_idx_ok (length prec) r0 && range_idx_ok (length prec) r1 && range_idx_ok (length prec) r2
+               && wf_rangeb N ncmp r0 && wf_rangeb N ncmp r1 && wf_rangeb N ncmp r2)
+      then V_MALFORMED else
+      match third with
+      | None => if overlaps N ncmp r0 r1 then V_MALFORMED else V_DIVERGE
+      | Some c =>
+          let rp := map_range (precf prec) in
+          let shared_p := sharedb N ncmp 0 (rp r0) (rp r2) || sharedb N ncmp 0 (rp r1) (rp r2) in
+          let shared_f := sharedb N ncmp 0 r0 r2 || sharedb N ncmp 0 r1 r2 in
+          let model := overlaps N ncmp r0 r2 || overlaps N ncmp r1 r2 in
+          if bool_eqb c shared_p then (if bool_eqb c model then V_AGREE else V_DIVERGE)
+          else if (k2_class N ncmp 0 r0 r2 || k2_class N ncmp 0 r1 r2) && bool_eqb c model then V_K2
+          else if bool_eqb c shared_f && bool_eqb c model && has_ties prec then V_K3
+          else V_VIOLATION
+      end
+  | CHeaderLive h max status entered hyper_refuses =>
+      match Semver.parse max with
+      | None => V_MALFORMED
+      | Some mx =>
+          if hyper_refuses then
+            (if negb entered && (400 <=? status) && (status <? 500) then V_AGREE else V_VIOLATION)
+          else
+          match extract_version version Semver.cmp Semver.parse mx h with
+          | Ok _ =>
+              (* a version the policy accepts: the request is routed and the handler runs *)
+              if entered && (status =? 200) then V_AGREE else V_VIOLATION
+          | Err _ =>
+              (* missing, unparsable or newer than supported: 400-level, no handler *)
+              if negb entered && (400 <=? status) && (status <? 500) then V_AGREE else V_VIOLATION
           end
       end
   | CSemver a b pa pb ord prec =>
